@@ -77,3 +77,25 @@ Definition mz_run_obj_i (t : mz_tree) (c : mz_cfg) (s : mz_conn) (om : mz_omsg) 
 (* string-keyed counterpart the theorems are stated on *)
 Definition mz_authorise_obj (t : mz_tree) (c : mz_cfg) (s : mz_conn) (om : mz_omsg) (r : mz_row) : bool :=
   mz_authorise t c s (mz_tested_msg (mz_sel_lookup (mz_rmethod r)) om) r.
+
+(* ---- WHICH objects changed: the zones (attribute "zone"; None = no such attribute) of the objects of the fixture whose
+   serialised state differs after the message.  The model changes the one object the message names, when it applies. *)
+Definition mz_changed_zones (o : mz_out) (om : mz_omsg) : list (option nat) :=
+  if mz_applied o then [mz_objzone (mz_om om)] else [].
+
+Definition mz_with_zone (m : mz_msg) (oz : option nat) : mz_msg := {| mz_objzone := oz; mz_is_cmdep := mz_is_cmdep m |}.
+
+(* verdict over the observed list: every object that changed must be one the sender is entitled to change (13 otherwise) *)
+Definition mz_oracle_changed_i (t : mz_tree) (c : mz_cfg) (s : mz_conn) (m : mz_msg) (i : nat) (zs : list (option nat)) : nat :=
+  match nth_error mz_irows i with
+  | Some (_, k) =>
+      if existsb (fun oz => let m' := mz_with_zone m oz in
+                            mz_placed_b t c m' && mz_zoned_b s && negb (mz_entitled_b t c s m' k)) zs then 13 else 0
+  | None => match zs with [] => 0 | _ => 1 end
+  end.
+
+(* a message whose "type" field names something the handler does not know (event::SetRemovalInfo with an object_type other
+   than Comment / Downtime) has no effect for anybody: [known] = false *)
+Definition mz_run_objk_i (t : mz_tree) (c : mz_cfg) (s : mz_conn) (om : mz_omsg) (ts : mz_ts) (i : nat) (zp : mz_zparam)
+                         (known : bool) : mz_out :=
+  mz_gate (mz_run_obj_i t c s om ts i zp) known.
